@@ -27,17 +27,20 @@ LEVEL_TEXT = ('Partial. Coq theorems over R about the energy kernels re-translat
               'stream spec_diff_checks). The hypotheses LogSqrtSpec / PowSpec (equivariance, values at I and 0) are now THEOREMS for the '
               'spectral functions V diag(f(lam)) V^T (lss_spec / pw_spec, tied to TensorMath.log_sqrt_symm / pow_symm with the '
               "implementation's eigen-pairs as oracle) over every eigen-solver that decomposes every symmetric matrix, and such a solver "
-              'exists (spectral theorem, proofs/L_C11e.v): isotropy and rest energies hold unconditionally for lss_R / pw_R. NOT proved: '
-              'the differentiability hypotheses themselves (at I and at a general SPD argument) for the spectral functions; Kirchhoff '
+              'exists (spectral theorem, proofs/L_C11e.v); the differentiability hypotheses AT THE IDENTITY (LogSqrtDiffAtId, PowDiffAtId) '
+              'are theorems for these spectral functions as well (any scalar function with a quadratic expansion at 1; squeeze argument '
+              'on the Frobenius norm, independent of how the solver picks eigenvectors): isotropy, rest energies AND zero rest stress hold '
+              'unconditionally for lss_R / pw_R. NOT proved: the differentiability hypotheses of the Kirchhoff theorems at a general SPD '
+              'argument (Daleckii-Krein) for the spectral functions; Kirchhoff '
               'symmetry of the damaged phase-field model (kink of the volumetric split at det F = 1); that eigen_sym33_unit meets the '
               'eigen-solver contract in binary64 (C12) -- these are tested on the implementation (L2).')
 TECHNIQUE = 'Coq proof (Reals + Coquelicot + nsatz) over kernels regenerated from the Python AST; vm_compute/PrimFloat correspondence'
 GEN = ['Math', 'TensorMath', 'LinearElastic', 'Neohookean', 'Gent', 'J2Elastic', 'HyperViscoelastic', 'MultiBranchHyperViscoelastic',
        'PhaseFieldThreshold']
 TARGETS = ['model/M_C08.vo', 'model/M_C08b.vo', 'model/M_C08s.vo', 'proofs/L_C08.vo', 'proofs/L_C08b.vo', 'proofs/L_C08c.vo', 'proofs/L_C08d.vo',
-           'proofs/L_C08e.vo', 'proofs/L_C08s.vo']
+           'proofs/L_C08e.vo', 'proofs/L_C08s.vo', 'proofs/L_C08t.vo']
 COQ_FILES = ['base/Num.v', 'model/M_C08.v', 'model/M_C08b.v', 'model/M_C08s.v', 'model/M_C11s.v', 'proofs/L_C08.v', 'proofs/L_C08b.v', 'proofs/L_C08c.v',
-             'proofs/L_C08d.v', 'proofs/L_C08e.v', 'proofs/L_C08s.v', 'proofs/L_C11s.v', 'proofs/L_C11t.v', 'proofs/L_C11e.v', 'proofs/L_C11u.v',
+             'proofs/L_C08d.v', 'proofs/L_C08e.v', 'proofs/L_C08s.v', 'proofs/L_C08t.v', 'proofs/L_C11s.v', 'proofs/L_C11t.v', 'proofs/L_C11e.v', 'proofs/L_C11u.v',
              'props/P_C08.v']
 BUILD_TIMEOUT = 1500
 TRUSTED = ['Coq 8.16.1 kernel + vm_compute (no native_compute)',
@@ -541,18 +544,22 @@ def check_spec_diff(ctx, cases):
                          for name, f in (('TensorMath.log_sqrt_symm', fl), ('TensorMath.pow_symm(.,1/4)', fp))]
     worst = 0.0
     for k, (H, kind, Q) in enumerate(cases):
-        Fe = onp.array(H) + onp.eye(3)
-        if k % 2:
-            G, _ = gen_H(r)
-            T = onp.eye(3) + 0.2 * r.uniform(0.05, 1) * onp.array(G) / max(fro(G), 1e-30)
-            Fe = Fe @ onp.linalg.inv(T / onp.cbrt(onp.linalg.det(T)))
+        if isinstance(kind, dict):                   # replay of a stored failing input: the very same Fe and direction
+            Fe, D, kind = onp.array(kind['Fe']), onp.array(kind['D']), 'replay'
+        else:
+            Fe = onp.array(H) + onp.eye(3)
+            if k % 2:
+                G, _ = gen_H(r)
+                T = onp.eye(3) + 0.2 * r.uniform(0.05, 1) * onp.array(G) / max(fro(G), 1e-30)
+                Fe = Fe @ onp.linalg.inv(T / onp.cbrt(onp.linalg.det(T)))
+            D = onp.array([[r.uniform(-1, 1) for _ in range(3)] for _ in range(3)])
         C0 = Fe.T @ Fe
-        D = onp.array([[r.uniform(-1, 1) for _ in range(3)] for _ in range(3)])
         D2 = onp.array([[r.uniform(-1, 1) for _ in range(3)] for _ in range(3)])
         X, Y = Fe.T @ D + D.T @ Fe, Fe.T @ D2 + D2.T @ Fe
         a, b = r.uniform(-2, 2), r.uniform(-2, 2)
         h = 1e-5
         Cp, Cm = (Fe + h * D).T @ (Fe + h * D), (Fe - h * D).T @ (Fe - h * D)
+        ctx.count('spec_diff_%s' % ('virgin' if k % 2 == 0 else 'with_state'))
         for name, f, jv in _JITD['spec']:
             LX, LY = onp.array(jv(np.array(C0), np.array(X))), onp.array(jv(np.array(C0), np.array(Y)))
             LXY = onp.array(jv(np.array(C0), np.array(a * X + b * Y)))
@@ -562,7 +569,7 @@ def check_spec_diff(ctx, cases):
             e_dq = float(onp.abs(q - LX).max()) / sc
             worst = max(worst, e_dq)
             ctx.count('spec_diff_checks', 2)
-            if not (onp.isfinite(LX).all() and e_lin <= 1e-12 and e_dq <= 2e-7):
+            if not (onp.isfinite(LX).all() and e_lin <= 1e-12 and e_dq <= 2e-8):
                 fails.append(dict(kind='conclusion', concrete=True,
                                   what='%s at C0 = Fe^T Fe [%s]: jax.jvp is not the derivative along the symmetric curve (Fe+hD)^T(Fe+hD): linearity defect %.3g, '
                                        'jvp vs central difference quotient %.3g (relative)' % (name, kind, e_lin, e_dq),
@@ -595,9 +602,9 @@ def l1_spectral(ctx, n):
         C0 = F.T @ F
         m = POW_EXPONENTS[k % len(POW_EXPONENTS)]
         lam, V = (onp.asarray(x) for x in f_eig(np.array(C0)))
-        if ('powf', m) not in _JITD:
-            _JITD[('powf', m)] = jax.jit(lambda A, m=m: TensorMath.pow_symm(A, m))
-        P = onp.asarray(_JITD[('powf', m)](np.array(C0)))
+        if ('pow', m) not in _JITD:
+            check_pow_derivative(ctx, 0)               # creates the jitted pow_symm(., m)
+        P = onp.asarray(_JITD[('pow', m)][0](np.array(C0)))
         L = onp.asarray(f_lss(np.array(C0)))
         if not (onp.isfinite(lam).all() and onp.isfinite(V).all() and onp.isfinite(P).all()):
             ctx.fail('correspondence', 'TensorMath.eigen_sym33_unit / pow_symm return non-finite values for C = F^T F [%s]' % kind,
@@ -1019,7 +1026,7 @@ def replay(ctx, path):
         print('implementation now:', [x['what'] for x in fails] or 'conclusion holds')
         return 1 if fails else 0
     if case.get('check') == 'spec_diff':
-        fails = check_spec_diff(ctx, [(case['H'], 'replay', case['Q'])] * 2)
+        fails = check_spec_diff(ctx, [(case['H'], dict(Fe=case['Fe'], D=case['D']), case['Q'])])
         print('implementation now:', [x['what'] for x in fails] or 'conclusion holds')
         return 1 if fails else 0
     md = models().get(case.get('model'))
